@@ -214,7 +214,7 @@ func seedEncoding(t *rapid.T, label string) ([]byte, string) {
 			m := reg.Enums[rt]
 			v = reflect.ValueOf(m[rapid.IntRange(0, len(m)-1).Draw(t, label+".member")]).Convert(rt)
 		} else {
-			if name == "*objects.GzipPacked" || name == "*objects.MsgCopy" {
+			if name == "*objects.MsgCopy" {
 				continue
 			}
 			b := &tlx.Builder{R: reg, S: rsrc{t}, MaxDepth: 3}
@@ -447,7 +447,7 @@ func TestC15(t *testing.T) {
 		nsh := hx.NShards()
 		var n int64
 		for i, name := range names {
-			if i%nsh != run.Shard || name == "*objects.GzipPacked" || name == "*objects.MsgCopy" {
+			if i%nsh != run.Shard || name == "*objects.MsgCopy" {
 				continue
 			}
 			rt := byName[name]
@@ -526,7 +526,7 @@ func TestC15(t *testing.T) {
 func FuzzDecodeUnknown(f *testing.F) {
 	setup()
 	for i, name := range names {
-		if i%9 != 0 || name == "*objects.GzipPacked" || name == "*objects.MsgCopy" {
+		if i%9 != 0 || name == "*objects.MsgCopy" {
 			continue
 		}
 		rt := byName[name]
@@ -558,7 +558,7 @@ func FuzzDecodeUnknown(f *testing.F) {
 func FuzzDecodeNamed(f *testing.F) {
 	setup()
 	for i, name := range names {
-		if i%9 != 0 || name == "*objects.GzipPacked" || name == "*objects.MsgCopy" {
+		if i%9 != 0 || name == "*objects.MsgCopy" {
 			continue
 		}
 		rt := byName[name]
